@@ -168,7 +168,9 @@ def TimeV.unix (ts : Int) : TimeV := ⟨ts, 0, 0, "UTC"⟩
 
 /-! ### numeric comparison (`val/num.go`) -/
 
-def epsilon : Float := 1e-9
+/-- `val.epsilon` = 1e-9 as a binary64 bit pattern (checked against the regenerated constant) -/
+def epsilonBits : UInt64 := 0x3e112e0be826d695
+def epsilon : Float := Float.ofBits epsilonBits
 def numEQ (x y : Float) : Bool := Float.abs (x - y) < epsilon
 def numNE (x y : Float) : Bool := Float.abs (x - y) >= epsilon
 def numLT (x y : Float) : Bool := x < y && numNE x y
